@@ -6,6 +6,9 @@ VF_EF(uint32_t, 2, float);
 VF_EF(uint64_t, 1, float);
 #endif
 #if VF_GROUP == 1
+VF_EF_ENUM(uint64_t, 1, float);
+VF_EF_ENUM(uint32_t, 2, float);
+VF_EF_ENUM(uint16_t, 1, float);
 VF_EF(uint16_t, 8, float);
 VF_EF(uint64_t, 32, double);
 #endif
